@@ -41,7 +41,12 @@ func init() {
 			{ID: "C01.16", Desc: "the Age value is the first member of the field", Run: func(c *Ctx) { ruleAgeFirstMember(c, "C01.16") }, MinSites: 1},
 			{ID: "C01.17", Desc: "Expires and the heuristic apply only when no max-age directive is present", Run: func(c *Ctx) { ruleExplicitExpiryByPresence(c, "C01.17") }, MinSites: 1},
 			{ID: "C01.18", Desc: "the heuristic lifetime is rounded down", Run: func(c *Ctx) { ruleHeuristicRoundedDown(c, "C01.18") }, MinSites: 1},
-			{ID: "C01.19", Desc: "directive names are case-folded before they are compared with earlier occurrences (max-age=0, Max-Age=3600 uses the first)", Run: func(c *Ctx) { ruleC12_1(c); ruleC12_11(c); renameRule(c, "C12.1", "C01.19"); renameRule(c, "C12.11", "C01.19") }, MinSites: 2},
+			{ID: "C01.19", Desc: "directive names are case-folded before they are compared with earlier occurrences (max-age=0, Max-Age=3600 uses the first)", Run: func(c *Ctx) {
+				ruleC12_1(c)
+				ruleC12_11(c)
+				renameRule(c, "C12.1", "C01.19")
+				renameRule(c, "C12.11", "C01.19")
+			}, MinSites: 2},
 			{ID: "C01.20", Desc: "the stale-while-revalidate window is measured with the current age", Run: func(c *Ctx) { ruleSWRWindowAge(c, "C01.20") }, MinSites: 1},
 		},
 	})
@@ -285,6 +290,23 @@ func ruleSWRWindow(c *Ctx, rule string) {
 			okWindow := false
 			detail := ""
 			for _, dc := range dominatingConds(in.Block()) {
+				// the comparison may sit in a local boolean helper that returns true only inside the window
+				if call, isCall := dc.cond.(*ssa.Call); isCall && dc.onTrue {
+					if sc := call.Call.StaticCallee(); sc != nil && c.helperImpliesWindow(sc) {
+						strict := true
+						for _, t := range c.swrWindowTests(sc) {
+							if t.Op == token.LEQ || t.Op == token.GEQ {
+								strict = false
+							}
+						}
+						if strict {
+							okWindow = true
+						} else {
+							detail = c.P.ShortName(sc) + ": window test is `<=`; staleness equal to the window is served"
+						}
+					}
+					continue
+				}
 				b, isB := dc.cond.(*ssa.BinOp)
 				if !isB {
 					continue
@@ -1011,21 +1033,28 @@ func ruleSaturation(c *Ctx, rule string) {
 		// accepted shape: the Age field value is decoded by the (checked) saturating delta-seconds decoder
 		usesDec := false
 		var site ssa.Instruction
-		instrsOf(ca, func(in ssa.Instruction) {
-			if cc := callOf(in); cc != nil && cc.StaticCallee() == dec && len(cc.Args) == 1 {
-				if c.An.dependsOnCall(cc.Args[0], func(x *ssa.Call) bool {
-					if !callIsMethod(&x.Call, "net/http", "Header", "Get") {
-						return false
+		var caTree []*ssa.Function
+		for g := range c.P.StaticTree(ca) {
+			caTree = append(caTree, g)
+		}
+		sort.Slice(caTree, func(i, j int) bool { return FuncName(caTree[i]) < FuncName(caTree[j]) })
+		for _, g := range caTree {
+			instrsOf(g, func(in ssa.Instruction) {
+				if cc := callOf(in); cc != nil && cc.StaticCallee() == dec && len(cc.Args) == 1 {
+					if c.An.dependsOnCall(cc.Args[0], func(x *ssa.Call) bool {
+						if !callIsMethod(&x.Call, "net/http", "Header", "Get") {
+							return false
+						}
+						_, a := recvAndArgs(&x.Call)
+						s, ok := constStr(a[0])
+						return ok && s == "Age"
+					}) {
+						usesDec = true
+						site = in
 					}
-					_, a := recvAndArgs(&x.Call)
-					s, ok := constStr(a[0])
-					return ok && s == "Age"
-				}) {
-					usesDec = true
-					site = in
 				}
-			}
-		})
+			})
+		}
 		if usesDec {
 			c.Pass(rule, "range-error-Age", "an out-of-range Age is converted to a saturated value, not dropped", c.P.ShortName(ca)+"@"+c.P.InstrPos(site)+": decoded by "+c.P.ShortName(dec))
 			c.Pass(rule, "clamp-Age", "the Age value is clamped before it is used as a duration", c.P.ShortName(ca)+"@"+c.P.InstrPos(site)+": decoded by "+c.P.ShortName(dec))
